@@ -153,7 +153,7 @@ Proof.
         destruct (ack_est tt h) as [t2 r] end.
       cbn [fst] in H2. destruct r; exact H2.
     + apply enqueue_inv; [assumption|apply rst_hdr_wf; assumption].
-  - cbn [fst]. apply Inv_set_time_wait; [|apply tw_ok_msl2].
+  - destruct (c_fin (h_ctl h)); cbn [fst]; [|exact HI]. apply Inv_set_time_wait; [|apply tw_ok_msl2].
     apply enqueue_inv; [assumption|].
     apply hb_wnd_wf; [|apply rcv_wnd_u16; assumption].
     apply hb_ack_wf; [|apply wadd_u32]. apply hb_wf; [assumption|apply HI].
